@@ -301,6 +301,12 @@ def scen_c13(wd, rnd, quick):
             for (a, z) in ((0, 128), (128, 288), (0, total), (288, 296)):
                 sc.append(dict({"c": "verify", "kind": kind, "msg": name, "mods": [{"m": "randregion", "from": a, "to": z, "seed": rnd.randrange(1 << 30)}],
                                 "tag": f"rand{a}-{z}"}, **({"roots": ["cur"]} if kind == "roots" else {})))
+            # random content in random regions (volume)
+            for j in range(12 if quick else 500):
+                a = rnd.randrange(total)
+                z = min(total, a + rnd.choice([1, 1, 2, 8, 32, 33, 100]))
+                sc.append(dict({"c": "verify", "kind": kind, "msg": name, "mods": [{"m": "randregion", "from": a, "to": z, "seed": rnd.randrange(1 << 30)}],
+                                "tag": f"rnd{j}"}, **({"roots": ["cur"]} if kind == "roots" else {})))
             sc.append(dict({"c": "verify", "kind": kind, "msg": name, "mods": [{"m": "empty"}], "tag": "empty"}, **({"roots": []} if kind == "roots" else {})))
             sc.append(dict({"c": "verify", "kind": kind, "msg": name, "mods": [{"m": "append", "n": 5}], "tag": "trailing"}, **({"roots": ["cur"]} if kind == "roots" else {})))
         # malformed root lists
